@@ -68,6 +68,8 @@ class Prop(SeqProp):
             Case(["fp_new 0 1 2", "fp_enter", "fp_raise"], {"mp": False, "modes": "w"}, "FilePool left by exception"),
             Case(["fp_new 0 1 2 3", "fp_enter", "fp_exit"], {"mp": False, "modes": "a", "body_close": [0, 1]},
                  "FilePool whose body closed two of the handles itself"),
+            Case(["new", "create 0", "create 0", "create 0", "remove 0 1", "create 0", "exit"], {"mp": False, "enter_at": 3, "reenter_at": 5},
+                 "pool used before its context is entered, entered once more by a helper"),
             Case(["new", "create 0", "create 0", "remove 0 0", "create 0", "exit"], {"mp": False, "foreign": True},
                  "pool constructed in one process, with-block in a forked child"),
             Case(["new", "create 0", "fork 0", "create 1", "flush 1", "create 1", "create 0", "raise"], {"mp": True, "foreign": True},
@@ -113,7 +115,14 @@ class Prop(SeqProp):
                     ops.append(f"create {pid}"); created += 1
             ops.append(rng.choice(["exit", "raise"]))
             meta = {"mp": mp_case}
-            if (not mp_case and rng.random() < 0.04) or (mp_case and k % 4 == 3):
+            if not mp_case and rng.random() < 0.2:
+                # a single-process pool works without a context too: the object is used first and its context is entered
+                # later (`pool = TmpPool(d); pool.create(); with pool: …`), or a helper that got the pool wraps its own work
+                # in a second `with pool:` — what was created before is still the pool's and goes when the context is left
+                meta["enter_at"] = rng.randint(1, max(1, len(ops) - 2))
+                if rng.random() < 0.4:
+                    meta["reenter_at"] = rng.randint(meta["enter_at"], len(ops) - 1)
+            if (not mp_case and "enter_at" not in meta and rng.random() < 0.04) or (mp_case and k % 4 == 3):
                 meta["foreign"] = True  # constructed in this process, the with-block runs in a forked child
             elif rng.random() < 0.3:
                 meta["bystanders"] = True  # other pools are alive in the same process while this one is used
@@ -215,9 +224,16 @@ class Prop(SeqProp):
                 by["late"] = "left"
             return None
 
+        enter_at = 0 if (mp_mode or pre is not None) else int(case.meta.get("enter_at", 0))
+        reenter_at = None if (mp_mode or pre is not None) else case.meta.get("reenter_at")
         try:
-            for op in case.ops:
+            for op_i, op in enumerate(case.ops):
                 w = op.split()
+                if pool is not None and w[0] not in ("exit", "raise"):
+                    if enter_at and op_i == enter_at:
+                        pool.__enter__()
+                    if reenter_at is not None and op_i == reenter_at:
+                        pool.__enter__()
                 if by["on"]:
                     prob = bystander_problem(len(out))
                     if prob is not None:
@@ -227,7 +243,8 @@ class Prop(SeqProp):
                     if w[0] == "new":
                         pool = pre if pre is not None else TmpPool(d, multi_proc=mp_mode)
                         pre = None
-                        pool.__enter__()
+                        if not enter_at:
+                            pool.__enter__()
                         r = "ok"
                     elif w[0] == "create":
                         pid = int(w[1])
